@@ -151,6 +151,14 @@ def silence():
         threading.excepthook = old_hook
 
 
+class MasterFailed(Exception):
+    """Computing and storing everything from scratch (empty storage, policies ALWAYS) already fails."""
+
+    def __init__(self, graph, d, exc):
+        Exception.__init__(self, "make(%s) from scratch failed: %s: %s" % (tname(d), type(exc).__name__, str(exc)[:200]))
+        self.graph, self.d, self.exc = graph, d, exc
+
+
 def prepare_master(graph, classes, master_dir):
     """Compute and store every data type once (policies forced to ALWAYS); returns {dt: dirname}."""
     if os.path.exists(master_dir):
@@ -162,7 +170,10 @@ def prepare_master(graph, classes, master_dir):
             st = strax.Context(storage=[strax.DataDirectory(master_dir)], register=classes,
                                allow_multiprocess=False, allow_lazy=False, timeout=20)
             for d in range(graph["n"]):
-                st.make(RUN_ID, tname(d), processor="single_thread", progress_bar=False)
+                try:
+                    st.make(RUN_ID, tname(d), processor="single_thread", progress_bar=False)
+                except Exception as e:  # noqa
+                    raise MasterFailed(graph, d, e)
     finally:
         set_policies(classes, graph)
     out = {}
@@ -208,7 +219,7 @@ def make_dirs(case, master_dir, dirs, workdir):
     return paths
 
 
-def make_context(graph, classes, case, paths):
+def make_context(graph, classes, case, paths, timeout=8):
     fes = []
     for fe, path in zip(case["frontends"], paths):
         fes.append(strax.DataDirectory(
@@ -218,7 +229,7 @@ def make_context(graph, classes, case, paths):
     forbid = tuple(tname(d) for d in case["forbid"])
     if case.get("forbid_all"):
         forbid = forbid + ("*",)
-    opts = dict(allow_multiprocess=False, timeout=8, forbid_creation_of=forbid)
+    opts = dict(allow_multiprocess=False, timeout=timeout, forbid_creation_of=forbid)
     if case.get("fuzzy"):
         opts["fuzzy_for"] = (tname(graph["n"] - 1),)
     if case.get("allow_incomplete"):
